@@ -218,6 +218,7 @@ def run(ctx):
                        "T: random imports (length, chunker, width, leaf kind, CID version/hash, mode, mtime). "
                        "non-trivial = a file of >= 2 chunks (the DAG has internal nodes)")
     q = ctx.quick
+    ctx.open_devs()          # load the known findings before any worker thread asks for them
     ctx.specdir(SPEC)
     cfg = write_gen_cfg(ctx, "gen_import.cfg", Kind='"import"', GN=40, GM=0, GWidths=tset([2, 3, 4, 5]), PartSel=0,
                         SmallN=8 if q else 40, SmallM=0, SmallW=5, Small2N=0, Small2M=0, SampleMod=5 if q else 1, Salt=ctx.seed)
